@@ -6,3 +6,4 @@ import Dtr.Props.C06
 #print axioms Dtr.C06_changed_sound
 #print axioms Dtr.C06_first_row_all_changed
 #print axioms Dtr.C06_prev_is_last_row
+#print axioms Dtr.C06_prev_behind_every_item
